@@ -16,4 +16,14 @@ def run(chk):
         v = tuple(tuple(x for x in s[0] if x.startswith("X ")) for s in d.steps if any(l.startswith("X ") for l in s[0]))
         return v if v else None
     analyse(chk, drv, impl, scns, ms, ds, project=xlines, judge=judge, what="query not timely / not faithful: ", nontrivial=nontriv)
+    # oracle from the property text on one fixed history (D30): d.svc is configured and the data a dronecheck needs are complete at
+    # '5 U': the query must go out in that step
+    sh = slot_reuse_history(); dh = run_daemons(impl, [sh])[0]
+    chk.cov["evaluations"] += 1; chk.hist("slot reuse after two reloads")
+    k = next(i for i, it in enumerate(sh.items) if it[0] == 'L' and it[1].startswith(b"5 U"))
+    if dh.rc != 0 or k >= len(dh.steps) or not any(l.startswith("X d.svc 5_") for l in dh.steps[k][0]):
+        chk.violation("d.svc (dronecheck) is configured and client 5's host result, ident, nick and user info are complete at '5 U u :r', yet no query is sent to it: the client carries the 'already asked' bit of a.svc, whose released slot d.svc took over (step outputs: %r)" % (dh.steps[k][0] if k < len(dh.steps) else None),
+                      replay_text(sh, dh, None), "stale-slot:sent-bit-of-released-slot")
+    else:
+        chk.cov["traces_validated_against_impl"] += 1
     chk.cov["rule"] = "arrival orders of N/d, u (empty and non-empty), n, U, P, H permuted by the generator; field lengths at limit-1, limit, limit+1; projection = the X lines of every step (which service, routing tag, full payload); distinct non-trivial = distinct query traces"
